@@ -376,7 +376,7 @@ def rule_window(chk: Check, view: AsyncView, rid: str):
             ok = ok and pre == T.mk_index(S("self._step_state.inputs"), name_t)
         chk.add(rid, "push_step folds the group into the input state", ok, "each group element (seq, ts_sent, ts_recv, msg) must be pushed, in order, into the input state carried from "
                 "self._step_state.inputs[input_name]", chk.loc(fi, l.node))
-        st = [e for e in r.events if e.kind == "store_sub" and e.name == "inputs"]
+        st = [e for e in r.events if e.kind == "store_sub" and carried and e.term == S(f"loopout{lid}:{carried[0][0]}")]
         ok = len(st) == 1 and carried and st[0].term == S(f"loopout{lid}:{carried[0][0]}")
         chk.add(rid, "push_step hands the folded state to the step", ok, "inputs[input_name] must be the input state after all pushes", chk.loc(fi))
     # update_input_state and InputState.push
